@@ -41,6 +41,7 @@ SortEvViol(ev) ==
         (CASE ev.op = "Sort"        -> SortViol(s, W, t, TRUE)
            [] ev.op = "Sort2"       -> SortViol(s, W, t, TRUE) \cup IdempotentViol(s, W, t)
            [] ev.op = "ShapeOrder"  -> SortViol(s, W, t, FALSE)
+           [] ev.op = "SortCorrupt" -> {}      \* (C15: corrupt graph; compared with the sorter transcription only)
            [] ev.op = "Optimize"    -> OptimizeViol(s, W, t)
            [] ev.op = "SaveDefault" -> SaveDefaultViol(s, W, t) \cup FileViol(t, ev.file)
            [] ev.op = "SaveDefault2" -> SaveDefaultViol(s, W, t) \cup FileViol(t, ev.file) \cup IdempotentViol(s, W, t)
@@ -63,7 +64,7 @@ Clauses(ev) ==
 \* and child lists the transcription computes.  A difference is model drift (reported, never a violation): design-level
 \* results about the sorter (NifSortMC) transfer to the code only while this holds.
 SortExact(ev) ==
-    IF ev.e # "sort" \/ "graph" \notin DOMAIN ev.case \/ ev.op \notin {"Sort", "Sort2", "ShapeOrder"} THEN TRUE
+    IF ev.e # "sort" \/ "graph" \notin DOMAIN ev.case \/ ev.op \notin {"Sort", "Sort2", "ShapeOrder", "SortCorrupt"} THEN TRUE
     ELSE LET s   == ev.pre
              old == s.ver \in {"OB", "FO3"}
              r   == IF ev.op = "ShapeOrder" THEN SetShapeOrder_Exact(s, old, ev.names, 500) ELSE PrettySort_Exact(s, old, 500)
